@@ -17,6 +17,13 @@ def main():
     ap.add_argument("--replay", default=None)
     a = ap.parse_args()
     seed = int(os.environ.get("VERIF_SEED", "0") or 0)
+    if a.replay:
+        # a replay re-creates the run that wrote the file: same seed and tier (replays that re-examine one stored input ignore them)
+        try:
+            pl = json.load(open(a.replay))
+            seed, a.tier = int(pl.get("seed", seed)), pl.get("tier", a.tier)
+        except Exception:  # noqa
+            pass
     common.impl_env()
     chk = common.Check(a.cid, a.tier, seed)
     mod = importlib.import_module("props." + a.cid)
